@@ -646,6 +646,10 @@ func v1scenarios(thorough bool) []v1scenario {
 		{Name: "V1-hmac-evict", Cache: 1, Warm: []v1call{callHMAC(idA)}, Threads: [][]v1call{{callHMAC(idA)}, {callHMAC(idB)}}},
 		{Name: "V1-get-get", Cache: 2, Warm: []v1call{callHMAC(idA)}, Threads: [][]v1call{{callHMAC(idA)}, {callHMAC(idA)}}},
 		{Name: "V1-pub-evict", Cache: 1, Warm: []v1call{callPub(idA)}, Threads: [][]v1call{{callPub(idA)}, {callHMAC(idB)}}},
+		// cold cache: the reader's key comes from the cache-miss path (read from the file, put into the
+		// cache, handed to the caller) and the other thread's read evicts that entry afterwards
+		{Name: "V1-pub-cold-evict", Cache: 1, Threads: [][]v1call{{callPub(idA)}, {callHMAC(idB)}}},
+		{Name: "V1-poison-cold-evict", Cache: 1, Threads: [][]v1call{{callPoison()}, {callHMAC(idB)}}},
 		{Name: "V1-priv-sym", Cache: 2, Threads: [][]v1call{{callPrivAll(idA)}, {callSymAll(idA)}}},
 		{Name: "V1-sym-sym-cold", Cache: 2, Threads: [][]v1call{{callSym(idA)}, {callSym(idA)}}},
 		{Name: "V1-poison-cold", Cache: 2, Threads: [][]v1call{{callPoison()}, {callPoison()}}},
